@@ -80,6 +80,7 @@ class Sim(object):
         self.fails = []
         self.flags = set()
         self.trace = []          # sequence of valid states, to detect a True->False->True cycle
+        self.shared = np.zeros((3, 3))      # ONE array object the caller keeps and refills in place between calls
 
     def fail(self, b, m):
         self.fails.append((b, m))
@@ -158,6 +159,10 @@ class Sim(object):
                     return self.fails          # 180 deg: u_to_rod's own singularity
                 if op["api"] == "ubi_to_rod" and np.trace(U) + 1 < 1e-3:
                     return self.fails
+                if op.get("shared") and op["api"] in U_APIS:
+                    self.shared[...] = U
+                    U = self.shared
+                    self.flags.add("shared-array")
             call = self._call(op, U)
             what = "%s.%s" % (op.get("mod", "symmetry"), op["api"])
             C._run_checks = self.state      # (already so; the calls below must not change it)
@@ -254,15 +259,15 @@ def make_machine(ctx):
         def assign_bad(self, tag):
             self.step({"op": "assign_bad", "tag": tag})
 
-        @rule(U=valid_U(), mod=st.sampled_from(MODS), api=st.sampled_from(U_APIS + ["ubi_to_u", "ubi_to_u_and_eps", "ubi_to_rod", "ub_to_u_b"]), sys=st.integers(1, 7))
-        def valid_matrix(self, U, mod, api, sys):
+        @rule(U=valid_U(), mod=st.sampled_from(MODS), api=st.sampled_from(U_APIS + ["ubi_to_u", "ubi_to_u_and_eps", "ubi_to_rod", "ub_to_u_b"]), sys=st.integers(1, 7), shared=st.booleans())
+        def valid_matrix(self, U, mod, api, sys, shared):
             if api in ("ubi_to_u", "ubi_to_u_and_eps", "ubi_to_rod", "ub_to_u_b") and U["kind"] == "noise7":
                 U = dict(U, kind="exact")        # these take a UBI / UB built from an exact rotation
-            self.step({"op": "call", "valid": True, "api": api, "mod": mod, "U": U, "sys": sys})
+            self.step({"op": "call", "valid": True, "api": api, "mod": mod, "U": U, "sys": sys, "shared": shared})
 
-        @rule(U=invalid_U(), mod=st.sampled_from(MODS), api=st.sampled_from(U_APIS), sys=st.integers(1, 7))
-        def invalid_matrix(self, U, mod, api, sys):
-            self.step({"op": "call", "valid": False, "api": api, "mod": mod, "U": U, "sys": sys})
+        @rule(U=invalid_U(), mod=st.sampled_from(MODS), api=st.sampled_from(U_APIS), sys=st.integers(1, 7), shared=st.booleans())
+        def invalid_matrix(self, U, mod, api, sys, shared):
+            self.step({"op": "call", "valid": False, "api": api, "mod": mod, "U": U, "sys": sys, "shared": shared})
 
         @rule(q=quat, mod=st.sampled_from(MODS), api=st.sampled_from(["ubi_to_u", "ubi_to_u_and_eps", "ubi_to_rod"]))
         def left_handed_ubi(self, q, mod, api):
